@@ -85,6 +85,10 @@ class Ctx:
         if k == "ttf":
             return {"kind": "ttf", "transformers": [{"kind": "detrend", "forecaster": None}],
                     "forecaster": naive}
+        if k == "ttf_req":  # a pipeline whose last step needs the horizon in fit
+            return {"kind": "ttf", "transformers": [{"kind": "detrend", "forecaster": None}],
+                    "forecaster": {"kind": "reduce", "strategy": r.choice(["direct", "multioutput"]),
+                                   "window_length": 3, "regressor": "stub"}}
         if k == "mux":
             return {"kind": "mux", "members": [naive, {"kind": "trend", "degree": 1}], "selected": 0}
         if k == "stack":
@@ -413,6 +417,22 @@ def _register_fh_cells():
                         faulty=lambda: tts(ctx.y_train, fh=bad), sig={})
         cell("tts/" + m, "malformed_fh", "entry_tts")(tts_cell)
 
+    def split_absolute(ctx):
+        from sktime.forecasting.base import ForecastingHorizon
+        t = ctx.rng.choice(["sliding", "expanding", "single", "cutoff"])
+        good = _splitter(ctx, type=t, window=6, step=2,
+                         fh=ForecastingHorizon(list(ctx.steps), is_relative=True))
+        bad = _splitter(ctx, type=t, window=6, step=2,
+                        fh=ForecastingHorizon(pd.Index(list(ctx.steps), dtype=np.int64), is_relative=False))
+        via = ctx.rng.choice(["split", "evaluate"])
+        if via == "split":
+            run = lambda mk: list(mk().split(ctx.y_train))  # noqa
+        else:
+            from sktime.forecasting.model_evaluation import evaluate
+            run = lambda mk: evaluate(C.build(ctx.forecaster(["naive"])), mk(), ctx.y_train)  # noqa
+        return dict(control=lambda: run(good), faulty=lambda: run(bad), sig={"splitter": t, "via": via})
+    cell("split/fh_absolute", "malformed_fh", "entry_splitter")(split_absolute)
+
     def missing_predict(ctx):
         spec = ctx.forecaster(["naive", "naive_mean", "trend", "reduce_rec", "ensemble", "ttf", "mux",
                                "expsm"])
@@ -423,7 +443,7 @@ def _register_fh_cells():
     cell("predict/fh_missing", "missing_or_different_fh", "entry_forecaster")(missing_predict)
 
     def missing_fit(ctx):
-        spec = ctx.forecaster(["reduce_dir", "reduce_multi", "reduce_dirrec", "stack"])
+        spec = ctx.forecaster(["reduce_dir", "reduce_multi", "reduce_dirrec", "stack", "ttf_req"])
         holder = {}
 
         def faulty():
@@ -434,11 +454,12 @@ def _register_fh_cells():
     cell("fit/fh_missing_required", "missing_or_different_fh", "entry_forecaster")(missing_fit)
 
     def missing_fit_again(ctx):
-        spec = ctx.forecaster(["reduce_dir", "reduce_multi", "reduce_dirrec", "stack"])
+        spec = ctx.forecaster(["reduce_dir", "reduce_multi", "reduce_dirrec", "stack", "ttf_req", "ttf_req"])
         f = C.build(spec).fit(ctx.y_train, fh=list(ctx.steps))
         g = C.build(spec).fit(ctx.y_train, fh=list(ctx.steps))
         return dict(control=lambda: g.fit(ctx.y_train, fh=list(ctx.steps)),
-                    faulty=lambda: f.fit(ctx.y_train.iloc[:-1]), sig={"forecaster": _k(spec)})
+                    faulty=lambda: f.fit(ctx.y_train.iloc[:-1]),
+                    sig={"forecaster": _k(spec) + ("+req" if spec["kind"] == "ttf" else "")})
     cell("fit/fh_missing_required_on_second_fit", "missing_or_different_fh", "entry_forecaster")(missing_fit_again)
 
     def different(ctx):
@@ -745,11 +766,24 @@ def _register_strategy_cells():
     def evaluate_strategy(ctx):
         from sktime.forecasting.model_evaluation import evaluate
         from sktime.forecasting.model_selection import SlidingWindowSplitter
+        from sktime.forecasting.model_selection import CutoffSplitter, SingleWindowSplitter
         spec = ctx.forecaster(["naive"])
-        cv = lambda: SlidingWindowSplitter(fh=list(ctx.steps), window_length=8, step_length=4)  # noqa
+        folds = ctx.rng.choice(["many", "one_single", "one_cutoff"])
+        if folds == "many":
+            cv = lambda: SlidingWindowSplitter(fh=list(ctx.steps), window_length=8, step_length=4)  # noqa
+        elif folds == "one_single":
+            cv = lambda: SingleWindowSplitter(fh=list(ctx.steps), window_length=8)  # noqa
+        else:
+            cv = lambda: CutoffSplitter(np.array([12]), fh=list(ctx.steps), window_length=8)  # noqa
+        holder = {}
+
+        def faulty():
+            holder["f"] = C.build(spec)
+            return evaluate(holder["f"], cv(), ctx.y_train,
+                            strategy=ctx.rng.choice(["Refit", "fit", None, 1, "updat"]))
+        # (the forecaster handed in must not have been fitted by a call that is rejected)
         return dict(control=lambda: evaluate(C.build(spec), cv(), ctx.y_train, strategy="update"),
-                    faulty=lambda: evaluate(C.build(spec), cv(), ctx.y_train,
-                                            strategy=ctx.rng.choice(["Refit", "fit", None, 1])), sig={})
+                    faulty=faulty, fresh=lambda: holder.get("f"), sig={"folds": folds})
     cell("evaluate/unknown_strategy", "unknown_strategy", "entry_evaluate")(evaluate_strategy)
 
     def aggfunc(ctx):
